@@ -45,7 +45,7 @@ def run(ctx):
                 "(c) out-of-order calls answer InvalidArgument; (d) a call that failed for lack of data succeeds once all bytes "
                 "are written and returns what it returns when they were there from the start. non-trivial = a history with at "
                 "least one failed call")
-    files = D.make_files(ctx, 12 if ctx.quick else 80, small=True) + D.make_files(ctx, 6 if ctx.quick else 40)
+    files = D.make_files(ctx, 30 if ctx.quick else 150, small=True) + D.make_files(ctx, 14 if ctx.quick else 70)
     hist = []
     for f in files:
         raw = bytes.fromhex(f["hex"])
